@@ -33,6 +33,10 @@ type Catalog struct {
 	Tags *Tags
 
 	JSightVersion string
+
+	// interactionKeys holds the texts of the ids of all interactions, the way
+	// they become keys of the serialised catalog.
+	interactionKeys map[string]struct{}
 }
 
 var _ json.Marshaler = &Catalog{}
